@@ -168,7 +168,9 @@ class _Run:
         return (kind, insp.identity[0] if insp.identity else o.__dict__.get("id"))
 
     def closure(self, roots):
-        """identities reachable from the given identities through attributes that are loaded right now"""
+        """identities reachable from the given identities through attributes that are loaded right now (or their pending history)"""
+        from sqlalchemy import inspect
+
         seen = set()
         stack = []
         for ident in roots:
@@ -189,15 +191,20 @@ class _Run:
             if ident in seen:
                 continue
             seen.add(ident)
+            insp = inspect(o)
             for rel in RELS[kind]:
                 v = o.__dict__.get(rel)
-                if v is None:
-                    continue
                 if isinstance(v, list):
                     stack.extend(v)
-                else:
+                elif v is not None:
                     stack.append(v)
-            v = None
+                # a pending relationship change keeps the replaced / removed objects in the attribute history (no SQL: passive)
+                h = insp.attrs[rel].history
+                for part in (h.added, h.unchanged, h.deleted):
+                    for x in part or ():
+                        if x is not None:
+                            stack.append(x)
+            v = h = insp = None
         o = None
         return seen | set(roots)
 
